@@ -11,6 +11,7 @@ import (
 	"os"
 	"path/filepath"
 	"runtime"
+	"strings"
 	"sync"
 
 	"github.com/a-h/templ"
@@ -147,6 +148,17 @@ func c14World(rc *kernel.RunCtx) {
 		mws = append(mws, mw)
 		mwDocs = append(mwDocs, append([]byte(nil), rec.body.Bytes()...))
 	}
+	// hand-written roots rendered with a plain context: script values and css rules on their own
+	bare := templ.Join(defaultC12.Scripts[0], defaultC12.Scripts[2], templ.ComponentFunc(func(ctx context.Context, w io.Writer) error {
+		return templ.RenderCSSItems(ctx, w, defaultC12.Css[0], defaultC12.Css[2])
+	}), templ.NewOnceHandle(templ.WithComponent(templ.Raw("<once-bare/>"))).Once())
+	var bareBuf strings.Builder
+	if err := bare.Render(context.Background(), &bareBuf); err != nil {
+		rc.Fail("C14/clean-render-error", "solo render of hand-written root: %v", err)
+		rc.Finish(k)
+		return
+	}
+	bareDoc := []byte(bareBuf.String())
 	if dev {
 		templruntime.ResetWatchCache()
 	}
@@ -157,7 +169,7 @@ func c14World(rc *kernel.RunCtx) {
 		m := t.Range(1, rc.Param("max_renders", 4), "nrenders")
 		for j := 0; j < m; j++ {
 			r := &c14render{Spec: t.Choose(nspec, "spec"), FailAt: -1}
-			r.Kind = []string{"render", "render", "shared", "http", "mw", "httpfail"}[t.Choose(6, "kind")]
+			r.Kind = []string{"render", "render", "shared", "http", "mw", "httpfail", "bare"}[t.Choose(7, "kind")]
 			if faultsLeft > 0 && r.Kind == "render" && t.Chance(1, 3, "faulty") {
 				faultsLeft--
 				if t.Bool("fault-writer") && len(docs[r.Spec]) > 0 {
@@ -190,6 +202,10 @@ func c14World(rc *kernel.RunCtx) {
 					rec := newRecorder()
 					templ.Handler(shared[r.Spec]).ServeHTTP(parkRecorder{rec, park}, httptest.NewRequest(http.MethodGet, "/", nil))
 					r.got, r.status = rec.body.Bytes(), rec.status
+				case "bare":
+					w := &core{park: park, limit: 4 << 20}
+					r.err = bare.Render(context.Background(), w.as(kn.WKind))
+					r.got = w.got
 				case "httpfail":
 					// a request whose component fails after writing part of the document
 					rec := newRecorder()
@@ -240,6 +256,9 @@ func c14World(rc *kernel.RunCtx) {
 			D := docs[r.Spec]
 			if r.Kind == "mw" {
 				D = mwDocs[r.Spec]
+			}
+			if r.Kind == "bare" {
+				D = bareDoc
 			}
 			what := fmt.Sprintf("task %d render %d (%s of %s, dev=%v, knobs %+v, %d tasks)", i, j, r.Kind, specs[r.Spec], dev, kn, ntasks)
 			if r.fired {
